@@ -183,9 +183,11 @@ template <class T> T ntoh(T x)
 // ---- output ----------------------------------------------------------------------------------------
 std::string g_out;
 long g_events = 0;
+long g_flushes = 0;
 
 void flush_out()
 {
+    ++g_flushes;
     if (!g_out.empty()) {
         size_t off = 0;
         while (off < g_out.size()) {
@@ -305,6 +307,12 @@ struct Ev {
 sigjmp_buf g_jb;
 volatile sig_atomic_t g_armed = 0;
 long g_traps                  = 0;
+// VH_DOMAIN_ONLY (sanitizer runs, property C02): only calls inside the documented domain of a function are made
+// (the predicates of namespace dom below select the inputs, they judge nothing), every event is produced inside a
+// guarded region, and a stop by a sanitizer (ASAN_OPTIONS/UBSAN_OPTIONS abort_on_error=1 -> SIGABRT), a signal or the
+// watchdog becomes one {"op":"crash"} event instead of the end of the run.
+bool g_domain_only = false;
+bool g_in_event    = false;
 
 void on_fatal(int sig)
 {
@@ -317,17 +325,23 @@ void on_trap(int sig)
     if (g_armed) { siglongjmp(g_jb, sig); }
     on_fatal(sig);
 }
+// (guarded regions nest: the outer jump buffer is restored on the way out)
 template <class F> bool guarded(F&& f)
 {
-    g_armed = 1;
+    sigjmp_buf saved;
+    std::memcpy(&saved, &g_jb, sizeof(sigjmp_buf));
+    sig_atomic_t const was = g_armed;
+    bool ok                = false;
+    g_armed                = 1;
     if (sigsetjmp(g_jb, 0) == 0) {
         f();
-        g_armed = 0;
-        return true;
+        ok = true;
+    } else {
+        ++g_traps;
     }
-    g_armed = 0;
-    ++g_traps;
-    return false;
+    std::memcpy(&g_jb, &saved, sizeof(sigjmp_buf));
+    g_armed = was;
+    return ok;
 }
 // the same with a watchdog: a call that burns a full second of CPU time without returning is recorded as a trap as well
 // (CPU time of this process, not wall-clock time: a loaded machine must not look like a hanging call)
@@ -346,11 +360,93 @@ template <class F> bool guarded_timed(F&& f)
     return ok;
 }
 
+// one event (or small group of events) produced inside a guarded region; see g_domain_only
+template <class T, class F> void contained(char const* op, T x, F&& f)
+{
+    size_t mark        = g_out.size();
+    long const n0      = g_events;
+    long const flushes = g_flushes;
+    g_in_event         = true;
+    bool const ok      = guarded_timed(f);
+    g_in_event         = false;
+    if (!ok) {
+        if (g_flushes != flushes) { mark = 0; } // the buffer was written out at an event boundary in between
+        g_out.resize(mark < g_out.size() ? mark : g_out.size());
+        if (g_flushes == flushes) { g_events = n0; }
+        Ev e("crash");
+        e.type(Tag<T>{}).val("x", x).str("of", op).str("inst", tname<T>()).end();
+        flush_out();
+    }
+}
+#define VH_CONTAIN(op, x, call)                                   \
+    if (g_domain_only and not g_in_event) {                       \
+        contained(op, x, [&] { call; });                          \
+        return;                                                   \
+    }
+
+// documented domains (input selection under VH_DOMAIN_ONLY; the same conditions as Exp(ev).dom in IntMathOps.tla)
+namespace dom {
+using u128 = unsigned __int128;
+template <class T> u128 mag(T v)
+{
+    i128 const w = i128(v);
+    return w < 0 ? u128(-w) : u128(w);
+}
+template <class R> u128 umax() { return u128(std::numeric_limits<R>::max()); }
+inline u128 gcd128(u128 a, u128 b)
+{
+    while (b != 0) {
+        u128 const t = a % b;
+        a            = b;
+        b            = t;
+    }
+    return a;
+}
+template <class R, class M, class N> bool gcd_ok(M m, N n) { return mag(m) <= umax<R>() and mag(n) <= umax<R>(); }
+template <class R, class M, class N> bool lcm_ok(M m, N n)
+{
+    if (not gcd_ok<R>(m, n)) { return false; }
+    if (m == 0 or n == 0) { return true; }
+    u128 const q = mag(m) / gcd128(mag(m), mag(n));
+    return q <= umax<R>() / mag(n);
+}
+template <class T> bool div_ok(T x, T y)
+{
+    if (y == 0) { return false; }
+    if constexpr (std::is_signed_v<T>) {
+        if (x == std::numeric_limits<T>::min() and y == T(-1)) { return false; }
+    }
+    return true;
+}
+template <class T> bool abs_ok(T x)
+{
+    if constexpr (std::is_signed_v<T>) { return x != std::numeric_limits<T>::min(); }
+    return true;
+}
+template <class T> bool ilog2_ok(T x) { return x >= T(1); }
+template <class T> bool ipow_ok(T b, T e)
+{
+    if (e < 0) { return false; }
+    i128 const lo = std::numeric_limits<T>::min(), hi = std::numeric_limits<T>::max();
+    if (b == 0 or b == 1 or i128(b) == -1) { return true; }
+    i128 r = 1;
+    for (i128 i = 0; i < i128(e); ++i) {
+        if (mag(r) > (u128(1) << 64) / mag(b)) { return false; } // the product would leave every 64-bit type
+        r *= i128(b);
+        if (r > hi or r < lo) { return false; }
+    }
+    return true;
+}
+} // namespace dom
+// under VH_DOMAIN_ONLY a call outside the documented domain is not made
+inline bool allowed(bool in_domain) { return in_domain or not g_domain_only; }
+
 // ---- groups of calls ----------------------------------------------------------------------------------
 template <class T> bool ceil_callable(T x) { return x <= T(T(1) << (W<T> - 1)); }
 
 template <class T> void ev_bits(T x)
 {
+    VH_CONTAIN("bits", x, ev_bits<T>(x))
     static_assert(std::is_unsigned_v<T>);
     Ev e("bits");
     e.type(Tag<T>{}).val("x", x);
@@ -450,12 +546,14 @@ template <class Tab> void emit_ce_table(Tab const& t)
 
 template <class T> void ev_bswap(T x)
 {
+    VH_CONTAIN("bswap", x, ev_bswap<T>(x))
     Ev e("bswap");
     e.type(Tag<T>{}).val("x", x).val("ret", impl::byteswap(x)).str("inst", tname<T>()).end();
 }
 
 template <class T> void ev_rot(T x, int n)
 {
+    VH_CONTAIN("rot", x, ev_rot<T>(x, n))
     Ev e("rot");
     e.type(Tag<T>{}).val("x", x).num("n", n).val("rotl", impl::rotl(x, n)).val("rotr", impl::rotr(x, n));
     e.str("inst", tname<T>()).end();
@@ -474,6 +572,7 @@ template <class T, size_t... I> void tpl_bitpos(Ev& e, T x, unsigned p, std::ind
 
 template <class T> void ev_bitpos(T x, unsigned p, bool tpl)
 {
+    VH_CONTAIN("bitpos", x, ev_bitpos<T>(x, p, tpl))
     Ev e("bitpos");
     e.type(Tag<T>{}).val("x", x).num("p", p);
     if (tpl) {
@@ -488,6 +587,7 @@ template <class T> void ev_bitpos(T x, unsigned p, bool tpl)
 
 template <class T> void ev_hton(T x)
 {
+    VH_CONTAIN("hton", x, ev_hton<T>(x))
     Ev e("hton");
     e.type(Tag<T>{}).val("x", x).flag("le", std::endian::native == std::endian::little);
     e.val("hton", impl::hton(x)).val("ntoh", impl::ntoh(x)).str("inst", tname<T>()).end();
@@ -495,12 +595,16 @@ template <class T> void ev_hton(T x)
 
 template <class T> void ev_ilog2(T x)
 {
+    if (not allowed(dom::ilog2_ok(x))) { return; }
+    VH_CONTAIN("ilog2", x, ev_ilog2<T>(x))
     Ev e("ilog2");
     e.type(Tag<T>{}).val("x", x).val("ret", impl::ilog2(x)).str("inst", tname<T>()).end();
 }
 
 template <class T> void ev_abs(T x)
 {
+    if (not allowed(dom::abs_ok(x))) { return; }
+    VH_CONTAIN("abs", x, ev_abs<T>(x))
     {
         Ev e("abs");
         e.type(Tag<T>{}).val("x", x).val("ret", impl::abs(x)).str("inst", tname<T>()).end();
@@ -526,6 +630,7 @@ template <class To, class From> void put_cast(Ev& e, From x, bool first)
 // saturate_cast and in_range of one value to every target type, as one grouped event
 template <class From> void ev_cast_all(From x)
 {
+    VH_CONTAIN("casts", x, ev_cast_all<From>(x))
     Ev e("casts");
     e.type(Tag<From>{}).val("x", x);
     e.key("to");
@@ -556,12 +661,16 @@ template <class T> void ev_bin1(char const* op, T x, T y, T r, bool trapped = fa
 
 template <class T> void ev_ipow(T x, T y)
 {
+    if (not allowed(dom::ipow_ok(x, y))) { return; }
+    VH_CONTAIN("ipow", x, ev_ipow<T>(x, y))
     T r{};
     bool ok = guarded_timed([&] { r = impl::ipow(x, y); });
     ev_bin1<T>("ipow", x, y, r, !ok);
 }
 template <auto B> void ev_ipow_t(decltype(B) y)
 {
+    if (not allowed(dom::ipow_ok(decltype(B)(B), y))) { return; }
+    VH_CONTAIN("ipow", decltype(B)(B), ev_ipow_t<B>(y))
     using T = decltype(B);
     Ev e("ipow");
     T r{};
@@ -584,6 +693,7 @@ template <class T, class U> void put_cmp(T t, U u)
 // every single-type binary function on one pair, as one grouped event "bin"
 template <class T> void binary_all(T x, T y, bool with_ipow)
 {
+    VH_CONTAIN("bin", x, binary_all<T>(x, y, with_ipow))
     std::string traps;
     auto trap = [&](char const* n) {
         if (!traps.empty()) { traps += ','; }
@@ -596,7 +706,8 @@ template <class T> void binary_all(T x, T y, bool with_ipow)
     e.val("add_sat", impl::add_sat(x, y));
     {
         T r{};
-        bool ok = guarded([&] { r = impl::div_sat(x, y); });
+        bool ok = true;
+        if (allowed(y != 0)) { ok = guarded([&] { r = impl::div_sat(x, y); }); }
         e.val("div_sat", ok ? r : T(0));
         if (!ok) { trap("div_sat"); }
     }
@@ -605,7 +716,8 @@ template <class T> void binary_all(T x, T y, bool with_ipow)
         using R = decltype(impl::gcd(x, y));
         static_assert(std::is_same_v<R, T>);
         R r{};
-        bool ok = guarded([&] { r = impl::gcd(x, y); });
+        bool ok = true;
+        if (allowed(dom::gcd_ok<R>(x, y))) { ok = guarded([&] { r = impl::gcd(x, y); }); }
         e.val("gcd", ok ? r : R(0));
         if (!ok) { trap("gcd"); }
     }
@@ -613,13 +725,15 @@ template <class T> void binary_all(T x, T y, bool with_ipow)
         using R = decltype(impl::lcm(x, y));
         static_assert(std::is_same_v<R, T>);
         R r{};
-        bool ok = guarded([&] { r = impl::lcm(x, y); });
+        bool ok = true;
+        if (allowed(dom::lcm_ok<R>(x, y))) { ok = guarded([&] { r = impl::lcm(x, y); }); }
         e.val("lcm", ok ? r : R(0));
         if (!ok) { trap("lcm"); }
     }
     {
         T q{}, r{};
-        bool ok = guarded([&] { impl::idiv(x, y, q, r); });
+        bool ok = true;
+        if (allowed(dom::div_ok(x, y))) { ok = guarded([&] { impl::idiv(x, y, q, r); }); }
         e.key("idiv");
         g_out += '[';
         e.raw(ok ? q : T(0));
@@ -632,7 +746,8 @@ template <class T> void binary_all(T x, T y, bool with_ipow)
     put_cmp(x, y);
     if (with_ipow) {
         T r{};
-        bool ok = guarded_timed([&] { r = impl::ipow(x, y); });
+        bool ok = true;
+        if (allowed(dom::ipow_ok(x, y))) { ok = guarded_timed([&] { r = impl::ipow(x, y); }); }
         e.val("ipow", ok ? r : T(0));
         if (!ok) { trap("ipow"); }
     }
@@ -648,6 +763,7 @@ template <class T> void binary_all(T x, T y, bool with_ipow)
 // the mixed-type functions on one pair, as one grouped event "mix"
 template <class M, class N> void mixed_pair(M m, N n)
 {
+    VH_CONTAIN("mix", m, (mixed_pair<M, N>(m, n)))
     using R = decltype(impl::gcd(m, n));
     static_assert(std::is_same_v<R, decltype(impl::lcm(m, n))>);
     std::string traps;
@@ -657,13 +773,15 @@ template <class M, class N> void mixed_pair(M m, N n)
     put_cmp(m, n);
     {
         R r{};
-        bool ok = guarded([&] { r = impl::gcd(m, n); });
+        bool ok = true;
+        if (allowed(dom::gcd_ok<R>(m, n))) { ok = guarded([&] { r = impl::gcd(m, n); }); }
         e.val("gcd", ok ? r : R(0));
         if (!ok) { traps += "\"gcd\""; }
     }
     {
         R r{};
-        bool ok = guarded([&] { r = impl::lcm(m, n); });
+        bool ok = true;
+        if (allowed(dom::lcm_ok<R>(m, n))) { ok = guarded([&] { r = impl::lcm(m, n); }); }
         e.val("lcm", ok ? r : R(0));
         if (!ok) {
             if (!traps.empty()) { traps += ','; }
@@ -1130,7 +1248,7 @@ void* work(void* p)
     stack_t ss {};
     ss.ss_sp   = altstack;
     ss.ss_size = sizeof(altstack);
-    sigaltstack(&ss, nullptr);
+    if (not g_domain_only) { sigaltstack(&ss, nullptr); } // (a sanitizer run time installs and owns its own alternate stack)
     sigset_t alrm;
     sigemptyset(&alrm);
     sigaddset(&alrm, SIGVTALRM);
@@ -1141,7 +1259,14 @@ void* work(void* p)
     sigaction(SIGFPE, &sa, nullptr);
     sigaction(SIGSEGV, &sa, nullptr);
     sigaction(SIGVTALRM, &sa, nullptr);
-    for (int s : {SIGABRT, SIGILL, SIGBUS}) { std::signal(s, on_fatal); }
+    if (g_domain_only) {
+        sigaction(SIGABRT, &sa, nullptr); // a sanitizer report ends in abort(): inside a guarded region it is a crash event
+        sigaction(SIGBUS, &sa, nullptr);
+        sigaction(SIGILL, &sa, nullptr);
+    }
+    if (not g_domain_only) {
+        for (int s : {SIGABRT, SIGILL, SIGBUS}) { std::signal(s, on_fatal); }
+    }
 
     auto& a                = *static_cast<Args*>(p);
     int const argc         = a.argc;
@@ -1178,7 +1303,9 @@ int main(int argc, char** argv)
     pthread_sigmask(SIG_BLOCK, &alrm, nullptr);
     pthread_attr_t at;
     pthread_attr_init(&at);
-    pthread_attr_setstacksize(&at, 1 << 18);
+    g_domain_only = std::getenv("VH_DOMAIN_ONLY") != nullptr;
+    // small stack: runaway recursion is found quickly; instrumented (sanitizer) builds need room for their red zones
+    pthread_attr_setstacksize(&at, g_domain_only ? (size_t(1) << 24) : (size_t(1) << 18));
     pthread_t th;
     if (pthread_create(&th, &at, work, &a) != 0) { return 2; }
     pthread_join(th, nullptr);
